@@ -109,6 +109,7 @@ class Session:
         os.set_blocking(self.obs_r, False)
         self.alive = True
         self.sent = 0
+        self.on_stop = None
         self.rbase = None         # rchar of the child when it first waited for the terminal
 
     # -- plumbing
@@ -201,7 +202,9 @@ class Session:
         self.sent += len(data)
         st = self.wait_quiet()
         n = 0
-        while st == "stopped" and n < 5:      # the child suspended itself (C-z): resume it
+        while st == "stopped" and n < 50:     # the child stopped itself (between reads with `pause 1`): resume it
+            if self.on_stop is not None:
+                self.on_stop(self)
             os.kill(self.pid, signal.SIGCONT)
             time.sleep(0.002)
             st = self.wait_quiet()
@@ -247,6 +250,11 @@ class Session:
             pass
         t0 = time.time()
         while not self._exited() and time.time() - t0 < 5:
+            if _state(self.pid) == "T":       # paused between reads: let it go on (nothing more to look at)
+                try:
+                    os.kill(self.pid, signal.SIGCONT)
+                except OSError:
+                    pass
             time.sleep(0.002)
         wedged = not self._exited()
         if wedged:
@@ -283,10 +291,33 @@ class Session:
         return self.hangup_and_close()
 
 
-def run_case(exe, spec, chunks, cols=80, rows=24, raw_initial=False, probe=None, events=None):
+def run_case(exe, spec, chunks, cols=80, rows=24, raw_initial=False, probe=None, events=None, between_reads=None):
     """Returns dict: obs (list of lines), out (bytes), per-chunk outputs, statuses.
-    events: {chunk index: [("winch", cols) | ("tstp",)]} performed once that chunk has been consumed."""
+    events: {chunk index: [("winch", cols) | ("tstp",)]} performed once that chunk has been consumed.
+    between_reads: list of "keep" | "raw" | "cooked": with `pause 1` in the spec the child stops itself after every
+    read; the driver then records the terminal settings (key "stops") and switches them as told before resuming."""
     s = Session(exe, spec, cols, rows, raw_initial)
+    stops = []
+
+    def on_stop(sess):
+        sess._drain()
+        before = termios.tcgetattr(sess.slave)
+        k = len(stops)
+        what = between_reads[k] if between_reads and k < len(between_reads) else "keep"
+        if what != "keep":
+            a = termios.tcgetattr(sess.slave)
+            if what == "raw":
+                a[3] &= ~(termios.ICANON | termios.ECHO | termios.ISIG)
+                a[0] &= ~(termios.ICRNL | termios.IXON)
+                a[6][termios.VMIN] = 1
+                a[6][termios.VTIME] = 0
+            else:
+                a[3] |= (termios.ICANON | termios.ECHO | termios.ISIG)
+                a[0] |= termios.ICRNL
+            termios.tcsetattr(sess.slave, termios.TCSANOW, a)
+        stops.append({"found": before, "left": termios.tcgetattr(sess.slave), "out_mark": len(sess.out), "obs_mark": len(sess.obs)})
+
+    s.on_stop = on_stop if between_reads is not None else None
     statuses = [s.wait_quiet()]
     marks = [len(s.out)]
     obs_marks = [len(s.obs)]
@@ -310,7 +341,8 @@ def run_case(exe, spec, chunks, cols=80, rows=24, raw_initial=False, probe=None,
     initial = s.initial_termios
     wedged = s.finish()
     return {"obs": s.obs, "out": bytes(s.out), "marks": marks, "obs_marks": obs_marks, "statuses": statuses,
-            "wedged": wedged, "termios_initial": initial, "termios_final": final_termios, "termios_probe": tio}
+            "wedged": wedged, "termios_initial": initial, "termios_final": final_termios, "termios_probe": tio,
+            "stops": stops}
 
 
 if __name__ == "__main__":
